@@ -15,7 +15,7 @@ use crate::Cfg;
 pub const FLOORS: &[&str] = &[
     "after:accepted", "after:rejected_in_lexer", "after:rejected_after_labels", "after:rejected_in_backpatch",
     "after:rejected_in_emit", "shares_labels_with_predecessor", "repeat_same_source", "with_orig", "without_orig",
-    "with_break", "histories",
+    "with_break", "histories", "after_many_labels",
 ];
 
 fn summary(o: &AsmOutcome) -> String {
@@ -27,8 +27,19 @@ fn summary(o: &AsmOutcome) -> String {
 }
 
 fn gen_source(rng: &mut Rng, stack: bool, prev_labels: &[String]) -> (String, &'static str) {
-    let kind = rng.below(8);
+    let kind = rng.below(9);
     match kind {
+        8 => {
+            // many labels (the symbol table grows well beyond its initial capacity)
+            let n = 20 + rng.below(60);
+            let mut t = String::new();
+            for k in 0..n {
+                let name = if !prev_labels.is_empty() && rng.chance(1, 4) { rng.pick(prev_labels).clone() } else { format!("L{}", k) };
+                t.push_str(&format!("{} add r{} r{} #{}\n", name, k % 8, (k + 1) % 8, k % 16));
+            }
+            t.push_str("br L1\nhalt\n");
+            (t, "many_labels")
+        }
         0 => (rng.s(&["add r0 r0 #99\n", "x\u{e9} add r0 r0 r0\n@\n", ".stringz \"open\nhalt\n", ".bogus\n", "#70000\n"]).to_string(), "lexer_or_parser"),
         1 => {
             // fails after some labels were recorded
@@ -152,6 +163,9 @@ fn one_case(seed: u64, i: u64) -> CaseOut {
                 AsmOutcome::Crashed { .. } => "after:crashed",
             };
             out.class(cls);
+            if sources[k - 1].1 == "many_labels" {
+                out.class("after_many_labels");
+            }
             let a = labels_of(&sources[k - 1].0);
             if labels_of(text).iter().any(|l| a.contains(l)) {
                 out.class("shares_labels_with_predecessor");
